@@ -107,6 +107,22 @@ class LabChainObj(AutoParameterObject, ChainObject):
         self._chain = chain                         # ... and may keep the chain to consult it later (while a task runs)
 
 
+class LabOpBase(AutoParameterObject):
+    """base interface of a family of operations; the children only differ in what they do, they inherit __init__"""
+
+    def __init__(self, amount, unit=None):
+        self.amount = amount
+        self.unit = unit
+
+
+class LabOpAdd(LabOpBase):
+    pass
+
+
+class LabOpMul(LabOpBase):
+    pass
+
+
 class LabObjPlain(ParameterObject):
     def __init__(self, x):
         self.x = x
@@ -424,7 +440,7 @@ def lab_run(task, spec, args):
     _save_record(task, rec, {})
     # statistics as they come out of numpy, a location, a shape: records are python objects, not only JSON-like data
     _save_record(task, rec, {'lab_uid': uid, 'mean': np.float64(0.25), 'count': np.int64(7), 'where': Path('out') / 'x', 'shape': (2, 3),
-                                 'hist': {3: 1, 12: 2}, 'best': float('inf'), 'note': 'to be continued\x85 \u2028é'})
+                                 'hist': {3: 1, 12: 2}, 'best': float('inf'), 'note': 'to be continued\x85', 'title': 'é \u2028x'})
     # a counter object recorded, updated and recorded again (each record shows the state at the moment it was added)
     from collections import defaultdict as _dd
     progress = _dd(int)
